@@ -25,6 +25,13 @@ VARIANTS: list[tuple[str, dict, dict]] = [
     ("use_annotated", {"field_constraints": True, "use_annotated": True}, {}),
     ("reuse_model", {"reuse_model": True}, {}),
     ("collapse_root_models", {"collapse_root_models": True}, {}),
+    # reviewed combinations: options whose passes interact (collapsing merges a root type's constraints into the
+    # field only under field_constraints; reuse runs before collapse; the three ways of writing a constrained Optional)
+    ("collapse_root_models+field_constraints", {"collapse_root_models": True, "field_constraints": True}, {}),
+    ("collapse_root_models+use_annotated", {"collapse_root_models": True, "field_constraints": True, "use_annotated": True}, {}),
+    ("use_annotated+use_union_operator", {"field_constraints": True, "use_annotated": True, "use_union_operator": True}, {}),
+    ("reuse_model+collapse_root_models", {"reuse_model": True, "collapse_root_models": True}, {}),
+    ("keep_model_order+reuse_model", {"keep_model_order": True, "reuse_model": True}, {}),
 ]
 CONSTRAINT_KEYWORDS = [*semgen.BOUND_KEYS, *semgen.STR_KEYS, *semgen.ARR_KEYS]
 
@@ -55,6 +62,16 @@ def required_nullable_names(doc: dict) -> set:
 
     def walk(s: Any) -> None:
         if isinstance(s, dict):
+            if isinstance(s.get("allOf"), list):
+                # `required` may be stated at the allOf level (a property-less member, or next to `allOf`)
+                try:
+                    merged = semgen.merge_all_of(doc, s)
+                except Exception:  # noqa: BLE001
+                    merged = {}
+                for nm in merged.get("required", []):
+                    ps = (merged.get("properties") or {}).get(nm)
+                    if isinstance(ps, dict) and semgen.admits_null(doc, ps):
+                        out.add(nm)
             props = s.get("properties")
             if isinstance(props, dict):
                 for nm in s.get("required", []):
@@ -70,14 +87,25 @@ def required_nullable_names(doc: dict) -> set:
     return out
 
 
-def error_class(err: str) -> str:
+def error_class(err: str, code: str = "") -> str:
     if "field constraints are set but not enforced" in err:
         return "unenforced_field_constraints"
     if "NameError" in err:
+        import re as _re
+
+        m = _re.search(r"name '([^']+)' is not defined", err)
+        if m and code and _re.search(rf"^class \w+\((?:[^)]*,\s*)?{_re.escape(m.group(1))}\s*[,)]", code, _re.M):
+            return "name_error_base_class"  # a subclass written before its base class
         return "name_error"
     if "not fully defined" in err or "not yet prepared" in err or "ForwardRef" in err:
         return "unresolved_forward_ref"
     return err.split(":")[1].strip() if err.count(":") >= 2 else "other"
+
+
+def _reject_reason(err: str) -> str:
+    if any(t in err for t in ("list.min_items", "list.max_items", "too_short", "too_long")):
+        return "item_count"
+    return "other"
 
 
 def eval_pair(task: tuple) -> dict:
@@ -114,7 +142,7 @@ def eval_pair(task: tuple) -> dict:
             inp = {"doc": doc, "style": style, "option": name}
             v = semrun.build(doc, style, gopts, formatters=hopts.get("formatters"), target=hopts.get("target"))
             if not v.ok:
-                out["failures"].append(({**cls0, "oracle": "variant_not_built", "keyword": "none", "location": "none", "direction": "none", "error": error_class(v.error)}, inp, f"baseline builds, variant does not: {v.error[:300]}"))
+                out["failures"].append(({**cls0, "oracle": "variant_not_built", "keyword": "none", "location": "none", "direction": "none", "error": error_class(v.error, v.code)}, inp, f"baseline builds, variant does not: {v.error[:300]}"))
                 continue
             try:
                 for (inst, m), bv in zip(corpus, bvec):
@@ -130,6 +158,8 @@ def eval_pair(task: tuple) -> dict:
                             "direction": "variant_looser" if vv else "variant_stricter",
                             "mcause": m.cause if m else "none",
                             "error": error_class(str(v.validate(inst)[1])) if not vv and "MODEL-ERROR" in str(v.validate(inst)[1]) else "none",
+                            # why the stricter side rejects: an item-count complaint, or something else
+                            "vreason": _reject_reason(str((v if bv else base).validate(inst)[1])) if vv != bv else "none",
                         }
                         out["failures"].append((cls, {**inp, "instance": inst}, f"baseline {'accepts' if bv else 'rejects'}, --{name} {'accepts' if vv else 'rejects'}; variant code:\n{v.code[-500:]}"))
                 for n in top_names:
@@ -163,7 +193,7 @@ def focused_docs() -> list[tuple[str, dict]]:
     return f3()
 
 
-def run_tasks(ck: Check, camp, tasks: list[tuple], procs: int = 8) -> None:
+def run_tasks(ck: Check, camp, tasks: list[tuple], procs: int = 12) -> None:
     if not tasks:
         return
     ctx = mp.get_context("fork")
@@ -204,6 +234,54 @@ def campaign_random(ck: Check, n: int) -> None:
     camp.wall_s = time.time() - t0
 
 
+def campaign_reuse(ck: Check, n: int) -> None:
+    """`reuse_merge_sound` needs the two classes to be the same class. What the real pass merges is decided by
+    its key (rendered text + imports): whenever it merges two named definitions, stage 1 of the model must give
+    them the same IR (fields, required flags, constraints, types, `extra`)."""
+    from .. import semlean
+    from .c03 import twin_docs
+
+    camp = ck.campaign("Parser.__reuse_model merges definitions B→A  ⇒  sem.trdef B = sem.trdef A (identical IR incl. extra)")
+    t0 = time.time()
+    rng = ck.rng.fork("reuse")
+    docs = [d for _l, d in twin_docs()]
+    for i in range(n):
+        doc, _f = semgen.gen_doc(rng.fork(str(i)), semgen.GenCfg(boost=("union" if i % 2 else ""), draft4=(i % 5 == 0)))
+        if len(doc.get("definitions") or {}) >= 2:
+            docs.append(doc)
+    reqs, meta = [], []
+    for doc in docs:
+        try:
+            ssx = semlean.schema_sx(semlean.body_of(doc), top=True)
+            dsx = semlean.defs_sx(doc)
+        except semlean.Unmodelled:
+            camp.unmodelled += 1
+            continue
+        for st in STYLES:
+            try:
+                merges = semlean.RealIR(doc, st, "contype").reuse_merges()
+            except Exception as e:  # noqa: BLE001
+                camp.unmodelled += 1
+                camp.hit(f"pass-raised:{type(e).__name__}")
+                continue
+            camp.evaluations += 1
+            camp.hit("merge" if merges else "no_merge")
+            for b, a in merges:
+                for x in (a, b):
+                    reqs.append(f"sem.trdef {st} contype {dsx} {ssx} {semlean.hx(x)}")
+                meta.append((doc, st, a, b))
+    replies = ck.driver.run(reqs)
+    for i, (doc, st, a, b) in enumerate(meta):
+        ra, rb = replies[2 * i], replies[2 * i + 1]
+        camp.evaluations += 1
+        camp.distinct.add(hash((semgen.canon(doc), st, a, b)))
+        if ra != rb:
+            ck.disagree(camp, {"doc": doc, "style": st, "merged": [b, a]}, "IR differs: the two classes do not accept the same values", "merged by __reuse_model")
+        elif len(camp.samples) < 2:
+            camp.samples.append({"doc": doc, "style": st, "merged": [b, a]})
+    camp.wall_s = time.time() - t0
+
+
 def search(ck: Check) -> None:
     camp = ck.campaign("search: more seeded schemas after a broken obligation")
     rng = ck.rng.fork("search")
@@ -235,6 +313,11 @@ def run(ck: Check) -> None:
         "the instance corpus of a document = its constructive valid instances + one-step invalid mutations confirmed by jsonschema",
         "only Python 3.12 is available: output for another target version is imported by this interpreter",
     ]
+    # the theorems are about `tr`; tie it to the real parser under all three routings in this check too
+    from .c03 import campaign_model
+
+    campaign_model(ck, 25 if quick else 250, parts=("tr",), fork="c14-stage1")
+    campaign_reuse(ck, 40 if quick else 400)
     campaign_focused(ck)
     campaign_random(ck, 70 if quick else 600)
     ck.search_hooks.append(search)
